@@ -27,6 +27,13 @@ const AutoSize = -1
 
 func (o Outpoint) TLA() string { return fmt.Sprintf("<<%d, %d>>", o.Src, o.Idx) }
 
+// MarshalText / UnmarshalText make outpoints usable as JSON map keys (replay files).
+func (o Outpoint) MarshalText() ([]byte, error) { return []byte(fmt.Sprintf("%d:%d", o.Src, o.Idx)), nil }
+func (o *Outpoint) UnmarshalText(b []byte) error {
+	_, err := fmt.Sscanf(string(b), "%d:%d", &o.Src, &o.Idx)
+	return err
+}
+
 type TxSpec struct {
 	Ins   []Outpoint
 	NOut  int
@@ -324,43 +331,73 @@ func EvictionBoundary() *Universe {
 	return defaults(u)
 }
 
-// RandomUniverse draws a small universe from the seed.
+// RandomUniverse draws a small universe from the seed.  Degenerate draws (no
+// dependency and no conflict between the transactions) are redrawn.
 func RandomUniverse(rng *rand.Rand, name string, n int) *Universe {
+	for {
+		u := randomUniverse(rng, name, n)
+		deps, confl := 0, 0
+		for i, tx := range u.Txs {
+			for _, in := range tx.Ins {
+				if in.Src > 0 {
+					deps++
+				}
+				for j := 0; j < i; j++ {
+					for _, in2 := range u.Txs[j].Ins {
+						if in == in2 {
+							confl++
+						}
+					}
+				}
+			}
+		}
+		if deps >= 1 && confl >= 1 {
+			return u
+		}
+	}
+}
+
+func randomUniverse(rng *rand.Rand, name string, n int) *Universe {
 	u := Universe{Name: name, NFund: 2, MaxBlockTxs: 1, MaxReorgTxs: 1, WitCoins: map[Outpoint]bool{}}
-	switch rng.Intn(3) {
-	case 0:
+	switch rng.Intn(4) {
+	case 0, 1:
 		u.SlotParent = []int{0}
-	case 1:
+	case 2:
 		u.SlotParent = []int{0, 1}
 		u.Maturity = 2
 	default:
 		u.SlotParent = []int{0, 0, 2}
 	}
-	u.MaxOrphans = rng.Intn(3)
-	u.RejectRepl = rng.Intn(5) == 0
+	u.MaxOrphans = []int{0, 1, 1, 2, 2, 2}[rng.Intn(6)]
+	u.RejectRepl = rng.Intn(6) == 0
 	u.Standalone = rng.Intn(2) == 0
 	if rng.Intn(3) == 0 {
-		u.MaxOrphanSize = 150
+		u.MaxOrphanSize = 180
 	}
-	fees := []int64{0, 50, 1000, 1500, 2000, 3100, 5000}
+	fees := []int64{0, 50, 1000, 1500, 2000, 3100, 5000, 9000}
 	for t := 1; t <= n; t++ {
 		var cand []Outpoint
 		for i := 0; i < u.NFund; i++ {
-			cand = append(cand, fund(i))
+			cand = append(cand, fund(i), fund(i), fund(i))
 		}
-		cand = append(cand, baseCB())
-		if len(u.SlotParent) > 0 {
+		if u.Maturity == 2 {
+			cand = append(cand, baseCB())
+		}
+		if len(u.SlotParent) > 1 {
 			cand = append(cand, cb(1))
 		}
 		for p := 1; p < t; p++ {
 			for i := 0; i < u.Txs[p-1].NOut; i++ {
-				cand = append(cand, out(p, i), out(p, i)) // prefer dependencies
+				cand = append(cand, out(p, i), out(p, i), out(p, i)) // prefer dependencies
 			}
 		}
 		tx := TxSpec{NOut: 1 + rng.Intn(2), Fee: fees[rng.Intn(len(fees))], VSize: []int{150, 200, 250}[rng.Intn(3)], Rbf: rng.Intn(2) == 0}
 		k := 1
 		if rng.Intn(4) == 0 {
 			k = 2
+		}
+		if t == 1 {
+			cand, k = []Outpoint{fund(0)}, 1
 		}
 		seen := map[Outpoint]bool{}
 		for len(tx.Ins) < k {
@@ -370,13 +407,15 @@ func RandomUniverse(rng *rand.Rand, name string, n int) *Universe {
 				tx.Ins = append(tx.Ins, c)
 			}
 		}
-		switch rng.Intn(12) {
-		case 0:
-			tx.Cls = "badscript"
-		case 1:
-			tx.Cls = "negfee"
-		case 2:
-			tx.Cls = "insane"
+		if t > 1 {
+			switch rng.Intn(16) {
+			case 0:
+				tx.Cls = "badscript"
+			case 1:
+				tx.Cls = "negfee"
+			case 2:
+				tx.Cls = "insane"
+			}
 		}
 		u.Txs = append(u.Txs, tx)
 	}
